@@ -56,10 +56,13 @@ def cases(tier):
         out.append(("matrix", backend, "~", "~", tier))
         out.append(("roles", backend, "", "", tier))
         out.append(("reauth", backend, "", "", tier))
+    out += SCHEDMODE.cases(tier)
     return out
 
 
 def describe(case):
+    if case[0] == "sched":
+        return SCHEDMODE.describe(case)
     return {"mode": case[0], "backend": case[1], "save": case[2], "query": case[3], "tier": case[4]}
 
 
@@ -213,6 +216,23 @@ def run_matrix(case):
                         if may_save and (stored or kind != 1) and (troles & set(query)) and ov_allows(ovname, ev, tpk) and len(got) != 1:
                             viol.append({"case": cid, "clause": "authorised-live-delivery", "sig": label0 + "|live|%s|%s" % (t, author),
                                          "detail": "%s holds a matching subscription and may see the event but got %d pushes" % (t, len(got))})
+            # an event that is already stored, re-sent by a token that may not save: told 'restricted' like any other EVENT of that token
+            stored_now = store.decode_store(backend, w.dump())
+            dup = next((e for e in stored_now.values() if e["content"].startswith("by ")), None)
+            if dup is not None:
+                for tname, c in conns.items():
+                    spec = TOKENS[tname]
+                    roles = set(spec[1]) if spec else {"a"}
+                    if roles & set(save):
+                        continue
+                    n0 = len(c.transcript)
+                    before = w.dump()
+                    w.send(tname, ["EVENT", dup], 1e6)
+                    n += 1
+                    oks = [m for m in frames(c, n0) if m[0] == "OK"]
+                    if not (oks and oks[0][2] is False and str(oks[0][3]).startswith("restricted")) or w.dump() != before:
+                        viol.append({"case": cid, "clause": "told-restricted", "sig": label0 + "|" + tname + "|stored-event",
+                                     "detail": "roles %r may not save; re-sending an already stored event was answered by %r" % (sorted(roles), oks[:1])})
         finally:
             w.close()
     return viol, n
@@ -285,6 +305,92 @@ def run_reauth(case):
     return viol, n
 
 
+# ---------------------------------------------------------------------------------------------------
+# Several connections at once (SCHED): the permission of a message follows the identity of ITS connection, whatever another
+# connection is doing at the same moment.
+from ..schedmode import SchedMode  # noqa: E402
+from ..env import TOKENS as TOKENSRC  # noqa: E402
+
+S_CFG = {"anon_vs_writer": {"save": "w", "query": "a"}, "anon_vs_reader": {"save": "a", "query": "r"}, "two_writers_one_not": {"save": "w", "query": "a"}}
+S_E1 = make_event("A", 1, 3001, [], "sent by the connection that may NOT save")
+S_E2 = make_event("B", 1, 3002, [], "sent by the connection that may save")
+_SCH = {}
+
+
+def _s_setup(w):
+    TOKENSRC.reset()
+    for k, r in (("K2", "r"), ("K3", "w"), ("K5", "")):
+        w.call(w.storage.set_auth_roles(PK[k], r), 1e6)
+    w.run(1e6)
+    TOKENSRC.reset()
+
+
+def _s_challenges(name, backend):
+    key = (name, backend)
+    if key not in _SCH:
+        w = World(backend, config={"authentication": {"enabled": True, "actions": S_CFG[name], "relay_urls": [RELAY_URL]}},
+                  storage_options={"stats_interval": 1e15}, message_timeout=1e300)
+        try:
+            _s_setup(w)
+            out = {}
+            for cn in ("c1", "c2", "c3"):
+                c = w.connect(cn, "1.1.1.%d" % (len(out) + 1))
+                w.run(1e6)
+                out[cn] = frames(c)[0][1]
+            _SCH[key] = out
+        finally:
+            w.close()
+    return _SCH[key]
+
+
+def _s_script(name, backend):
+    ch = _s_challenges(name, backend)
+    if name == "anon_vs_writer":
+        return [("c3", ["REQ", "s", {"kinds": [1]}]), ("c2", ["AUTH", auth_event("K3", ch["c2"], CLOCK.now)]), ("c1", ["EVENT", S_E1]), ("c2", ["EVENT", S_E2])]
+    if name == "two_writers_one_not":
+        return [("c3", ["REQ", "s", {"kinds": [1]}]), ("c2", ["AUTH", auth_event("K3", ch["c2"], CLOCK.now)]), ("c1", ["AUTH", auth_event("K5", ch["c1"], CLOCK.now)]),
+                ("c1", ["EVENT", S_E1]), ("c2", ["EVENT", S_E2])]
+    return [("c2", ["AUTH", auth_event("K2", ch["c2"], CLOCK.now)]), ("c1", ["REQ", "p", {"kinds": [1]}]), ("c2", ["REQ", "q", {"kinds": [1]}])]
+
+
+def _s_build(name, backend, policy):
+    from ..explorer import Scenario
+
+    return Scenario("%s%s|%s" % (name, "@fair" if policy == "fair" else "", backend), backend, [("c1", "1.1.1.1"), ("c2", "1.1.1.2"), ("c3", "1.1.1.3")],
+                    _s_script(name, backend), config={"authentication": {"enabled": True, "actions": S_CFG[name], "relay_urls": [RELAY_URL]}},
+                    storage_options={"stats_interval": 1e15}, setup=_s_setup, horizon=60.0, policy=policy)
+
+
+def _s_judge(x, name, backend, viol, cid, sig):
+    w = x.world
+    if name == "anon_vs_reader":
+        f1 = frames(w.conns["c1"])
+        f2 = frames(w.conns["c2"])
+        if any(m[0] in ("EOSE", "EVENT") and m[1] == "p" for m in f1):
+            viol.append({"case": cid, "clause": "unauthorised-query-refused", "sig": sig + "|c1", "detail": "the unauthenticated connection's REQ was served while another connection authenticated as a reader"})
+        if not any(m[0] == "EOSE" and m[1] == "q" for m in f2):
+            viol.append({"case": cid, "clause": "authorised-query-served", "sig": sig + "|c2", "detail": "the reader's REQ was not served: %r" % f2[-2:]})
+        return
+    have = store.decode_store(backend, w.dump())
+    f1 = frames(w.conns["c1"])
+    f2 = frames(w.conns["c2"])
+    f3 = frames(w.conns["c3"])
+    ok1 = [m for m in f1 if m[0] == "OK"]
+    ok2 = [m for m in f2 if m[0] == "OK"]
+    if (ok1 and ok1[0][2] is True) or S_E1["id"] in have:
+        viol.append({"case": cid, "clause": "unauthorised-save-not-stored", "sig": sig + "|c1",
+                     "detail": "the EVENT of the connection without the save role was answered %r, stored=%s" % (ok1[:1], S_E1["id"] in have)})
+    elif not (ok1 and str(ok1[0][3]).startswith("restricted")):
+        viol.append({"case": cid, "clause": "told-restricted", "sig": sig + "|c1", "detail": "refused EVENT answered by %r" % (ok1[:1] or f1[-1:])})
+    if any(m[0] == "EVENT" and m[2].get("id") == S_E1["id"] for m in f3):
+        viol.append({"case": cid, "clause": "unauthorised-save-not-broadcast", "sig": sig + "|c3", "detail": "the refused event was pushed to a subscriber"})
+    if not (ok2 and ok2[0][2] is True and S_E2["id"] in have):
+        viol.append({"case": cid, "clause": "authorised-save-accepted", "sig": sig + "|c2", "detail": "the writer's EVENT was answered %r, stored=%s" % (ok2[:1], S_E2["id"] in have)})
+
+
+SCHEDMODE = SchedMode(S_CFG, _s_build, _s_judge)
+
+
 ROLE_STRS = ["", "r", "rw", "RW"]
 
 
@@ -350,6 +456,8 @@ def run_roles(case):
 
 
 def run_case(case):
+    if case[0] == "sched":
+        return SCHEDMODE.run(case)
     if case[0] == "matrix":
         viol, n = run_matrix(case)
     elif case[0] == "reauth":
@@ -365,20 +473,24 @@ def run_case(case):
 def coverage(tier, agg):
     ss = SUBSETS if tier == "thorough" else ["", "a", "r", "w", "rw"]
     return {
-        "rule": "matrix: save roles x query roles over %r (%d x %d configurations, plus each action left unconfigured = default role 'a') x token roles {unauthenticated, a, r, w, rw, none} obtained by real "
+        "rule": ("matrix: save roles x query roles over %r (%d x %d configurations, plus each action left unconfigured = default role 'a') x token roles {unauthenticated, a, r, w, rw, none} obtained by real "
                 "AUTH handshakes x {REQ, EVENT by two authors, an ephemeral EVENT} x output validator {none, recipe whitelist, reject-one-author} on both backends; every "
                 "connection also holds a subscription, so each accepted EVENT exercises live delivery to every token; oracle: stored/broadcast iff "
                 "roles intersect save roles (else OK=false 'restricted', store and other transcripts unchanged), served iff roles intersect query "
                 "roles (else NOTICE 'restricted', no EVENT/EOSE), every EVENT frame satisfies the configured output validator (stored and live); "
-                "reauth: one connection authenticates as each ordered pair of {r, w, rw, no role} and after each AUTH sends a REQ and an EVENT and sees "
+                "after the matrix an already stored event is re-sent by every token that may not save (told 'restricted' all the same); reauth: one connection authenticates as each ordered pair of {r, w, rw, no role} and after each AUTH sends a REQ and an EVENT and sees "
                 "a live event: what is granted follows the identity held at that moment, a refused REQ's subscription never receives pushes; roles: all sequences of <= %d assignments over 2 keys x {'', r, rw, RW} with clock steps {0,1}s read back via get_auth_roles and "
-                "get_all_auth_roles. states/transitions = commands judged." % (ss, len(ss), len(ss), 3 if tier == "thorough" else 2),
+                "get_all_auth_roles. states/transitions = commands judged." + SCHEDMODE.rule() + ": an unauthenticated (or role-less) connection and a writer / reader act "
+                "at the same moment; the permission of every message follows the identity of its own connection") % (ss, len(ss), len(ss), 3 if tier == "thorough" else 2),
         "backends": ["sql", "kv"],
     }
 
 
 def replay(desc):
-    r = run_case((desc["mode"], desc["backend"], desc["save"], desc["query"], desc.get("tier", "quick")))
+    if desc.get("mode") == "sched":
+        r = run_case(SCHEDMODE.from_desc(desc))
+    else:
+        r = run_case((desc["mode"], desc["backend"], desc["save"], desc["query"], desc.get("tier", "quick")))
     for v in r["viol"][:30]:
         print(v["clause"], v["detail"][:500])
     return r["viol"]
